@@ -882,7 +882,8 @@ fn build_adversarial_nts(w: &mut World, ci: usize, r: &mut Rng, spec: &mut ReqSp
     // unique identifier(s): the RFC wants 32 bytes; try shorter
     let n_uid = [1usize, 0, 2, 3][choose("req.nts.nuid", 4) as usize];
     for _ in 0..n_uid {
-        let len = [32usize, 0, 4, 8, 12, 16, 24, 64][choose("req.nts.uidlen", 8) as usize];
+        // mostly RFC-conformant sizes (short ones are the known short-identifier finding)
+        let len = [32usize, 0, 4, 8, 12, 16, 24, 64][weighted("req.nts.uidlen", &[8, 1, 1, 1, 1, 1, 2, 3])];
         b.extend_from_slice(&wire::ef(wire::T_UID, &rand_bytes(r, len)));
     }
     // the cookie
@@ -917,12 +918,13 @@ fn build_adversarial_nts(w: &mut World, ci: usize, r: &mut Rng, spec: &mut ReqSp
     // placeholders: many / tiny / odd sizes
     let n_ph = [0usize, 1, 2, 7, 8, 9, 20][weighted("req.nts.nph", &[4, 3, 2, 1, 1, 1, 1])];
     for _ in 0..n_ph {
-        let len = match choose("req.nts.phlen", 6) {
+        let len = match choose("req.nts.phlen", 7) {
             0 => cookie.bytes.len(),
             1 => 0,
             2 => 4,
             3 => cookie.bytes.len().saturating_sub(4),
             4 => cookie.bytes.len() + 4,
+            5 => 4 * choose("req.nts.phlen.len4", 51) as usize,
             _ => 400,
         };
         b.extend_from_slice(&wire::ef(wire::T_PLACEHOLDER, &vec![0u8; len]));
@@ -946,15 +948,43 @@ fn build_adversarial_nts(w: &mut World, ci: usize, r: &mut Rng, spec: &mut ReqSp
     }
     // the encrypted part
     let mut plain = Vec::new();
-    for _ in 0..choose("req.nts.ninner", 4) {
+    // 0-6 extra fields inside the ciphertext, in random order. None of them is ever decoded by
+    // the server's parser beyond its type, so every length is possible: cookie fields shorter /
+    // longer than / exactly as long as a real cookie, placeholders of any length, unique
+    // identifiers, unknown fields with canaries.
+    let n_inner = weighted("req.nts.ninner", &[3, 3, 2, 2, 1, 1, 1]);
+    for _ in 0..n_inner {
         match choose("req.nts.inner", 4) {
-            0 => plain.extend_from_slice(&wire::ef(wire::T_PLACEHOLDER, &vec![0u8; [cookie.bytes.len(), 0, 4][choose("req.nts.innerph", 3) as usize]])),
-            1 => {
-                let t = UNKNOWN_TYPES[choose("req.nts.innerunk", UNKNOWN_TYPES.len() as u64) as usize];
-                plain.extend_from_slice(&wire::ef(t, &canary_body(r, spec, [8usize, 0, 24][choose("req.nts.innerunklen", 3) as usize])));
+            0 => {
+                let real = cookie.bytes.len();
+                let len = match choose("req.nts.innercookie", 6) {
+                    0 => real,
+                    1 => 0,
+                    2 => 4 * choose("req.nts.innercookie.len4", 51) as usize,
+                    3 => real.saturating_sub(4),
+                    4 => real + 4,
+                    // any length: fine in NTPv5 (padded), a broken field in NTPv4
+                    _ => choose("req.nts.innercookie.len", 201) as usize,
+                };
+                let body = if len == real && chance("req.nts.innercookie.real", 0.5) { cookie.bytes.clone() } else { canary_body(r, spec, len) };
+                plain.extend_from_slice(&wire::ef(wire::T_COOKIE, &body));
+                probe("nts-inner-cookie-field");
             }
-            2 => plain.extend_from_slice(&wire::ef(wire::T_UID, &canary_body(r, spec, 32))),
-            _ => plain.extend_from_slice(&wire::ef(wire::T_COOKIE, &cookie.bytes)),
+            1 => {
+                let len = match choose("req.nts.innerph", 5) {
+                    0 => cookie.bytes.len(),
+                    1 => 0,
+                    2 => 4,
+                    3 => 4 * choose("req.nts.innerph.len4", 51) as usize,
+                    _ => 400,
+                };
+                plain.extend_from_slice(&wire::ef(wire::T_PLACEHOLDER, &vec![0u8; len]));
+            }
+            2 => plain.extend_from_slice(&wire::ef(wire::T_UID, &canary_body(r, spec, [32usize, 64, 36][choose("req.nts.inneruid", 3) as usize]))),
+            _ => {
+                let t = UNKNOWN_TYPES[choose("req.nts.innerunk", UNKNOWN_TYPES.len() as u64) as usize];
+                plain.extend_from_slice(&wire::ef(t, &canary_body(r, spec, [8usize, 0, 24, 100][choose("req.nts.innerunklen", 4) as usize])));
+            }
         }
     }
     match weighted("req.nts.enc", &[8, 1, 1]) {
